@@ -95,6 +95,7 @@ func genC14(r *h.Rng, tier string, idx int) *h.Plan {
 	T := timeouts[r.Intn(len(timeouts))]
 	p.Cfg["timeout_ns"] = int64(T)
 	on := mode == "control" || mode == "default"
+	p.Cfg["shared_ctx"] = r.Bool()
 	n := r.Range(2, 6)
 	for i := 0; i < n; i++ {
 		s := genC14Script(r, T, on)
@@ -142,6 +143,10 @@ func execC14(t *testing.T, plan *h.Plan, trace bool) *h.Result {
 		eng := h.NewCoreEngine(state, back, ctl)
 		loc := eng.Loc("L")
 		start0 := time.Now()
+		var sharedCtx *core.Context
+		if b, _ := plan.Cfg["shared_ctx"].(bool); b {
+			sharedCtx = h.NewCtx(h.Prot{})
+		}
 		for i, op := range plan.Ops {
 			opIdx = i
 			cur = op
@@ -162,6 +167,12 @@ func execC14(t *testing.T, plan *h.Plan, trace bool) *h.Result {
 			}
 			vname, _ := sj["var"].(string)
 			ctx := h.NewCtx(h.Prot{})
+			if sharedCtx != nil {
+				// one caller context for the whole history: what an earlier
+				// script (a stopped one in particular) leaves in it must not
+				// reach a later script
+				ctx = sharedCtx
+			}
 			start := time.Now()
 			var val interface{}
 			var err error
